@@ -18,7 +18,7 @@ RULE = ("a case = a whole operation history on two objects of one flavour: stati
         "NxCopy (noexcept non-trivial copy, self-checking) / std::string / MoveOnly (non-trivial storage); stack over static_vector of "
         "int / Tracked / std::string; inplace_vector of the same six element kinds; capacities {0,1,2,3,4,8,16,254,255,256} and "
         "{65534,65535,65536}; exhaustive part: every content state of length <= cap <= 3 over values {1,18,35} x every single "
-        "operation (57 static_vector operations, 17 stack operations, 24 inplace_vector operations) with every position/count/index "
+        "operation (59 static_vector operations, 17 stack operations, 25 inplace_vector operations) with every position/count/index "
         "argument in [-1, size+1]; short exhaustive histories for inplace_vector and stack; random part: seeded capacity-aware "
         "histories of length <= 40, ~35% of steps at or crossing full/empty, fill-to-boundary runs at 254/255/256 (and, thorough tier, "
         "65534/65535/65536); non-trivial = distinct history that reaches a non-empty state")
@@ -123,7 +123,9 @@ class Sim:
         elif name == "ctn":
             if not (0 <= a[1] <= self.cap): return False
             v[tg] = [0] * a[1]
-        elif name in ("asr", "ctr", "fcc", "fcr"):
+        elif name == "cte":
+            v[tg] = []
+        elif name in ("asr", "ctr", "cta", "fcc", "fcr"):
             xs = a[2:2 + a[1]]
             if len(xs) > self.cap: return False
             v[tg] = list(xs)
@@ -184,7 +186,9 @@ def sv_single_ops(t, sz, cap, vals):
         ops += [f"ctn {t} {n}", f"ctv {t} {n} {x}"]
     ops += ["swp", "fsw", f"cpa {t}", f"mva {t}", f"cpc {t}", f"mrt {t}", "rel", f"sca {t}", f"sma {t}", f"ssw {t}", f"fr {t}", f"bk {t}",
             f"rit {t} 0", f"rit {t} 1", f"rit {t} 2", f"cit {t}", f"dat {t}", f"mxs {t}", f"sfr {t} 52", f"sbk {t} 52",
-            f"cpi {t} 0 52", f"cpi {t} 1 52"]
+            f"cpi {t} 0 52", f"cpi {t} 1 52", f"cte {t}"]
+    if cap >= 2:
+        ops.append(f"cta {t} 2 {vals[1]} {vals[0]}")
     for pid in range(0, 5):
         ops.append(f"eif {t} {pid}")
     for v in vals[:2]:
@@ -294,7 +298,7 @@ def random_history(rng, fl, cap, vals, steps, want_invalid, fill_first=None):
                     f"at {t} {i}", f"fr {t}", f"bk {t}", f"sca {t}", f"sma {t}", f"ssw {t}",
                     f"rit {t} {rng.randint(0, 2)}", f"cit {t}", f"dat {t}", f"mxs {t}", f"sat {t} {i} {x}", f"sfr {t} {x}", f"sbk {t} {x}",
                     f"ctn {t} {rng.randint(0, min(cap, 6))}", f"ctv {t} {rng.randint(0, min(cap, 6))} {x}", f"ctr {t} {L(small)}",
-                    f"cpi {t} {rng.randint(0, 1)} {x}"]
+                    f"cpi {t} {rng.randint(0, 1)} {x}", f"cte {t}"] + ([f"cta {t} 2 {x} {rng.choice(vals)}"] if cap >= 2 else [])
         cand = [o for o in cand if supported(fl, o)]
         rng.shuffle(cand)
         chosen = None
@@ -361,6 +365,36 @@ def gen(tier, rng):
         for h in itertools.product(st_alpha, repeat=depth):
             if not quick or rng.random() < 0.5:
                 out.append(hist("stack", cap, list(h)))
+    # ---- aimed at the swap-cycle rotate behind insert and at the move-down behind erase: every (size, position, count)
+    #      at capacity 8 (and 16 in the thorough tier) with pairwise distinct elements, so a misplaced element shows
+    for cap in ([8] if quick else [8, 16]):
+        for sz0 in range(0, cap + 1):
+            base = [100 + i for i in range(sz0)]
+            for pos in range(0, sz0 + 1):
+                for n in range(1, cap - sz0 + 1):
+                    new = [200 + i for i in range(n)]
+                    out.append(hist("sv_int", cap, [f"asr 0 {L(base)}", f"irg 0 {pos} {L(new)}", f"inn 0 {min(pos, 1)} 0 7", f"mir 1 0 {L(base[:pos])}"]))
+                for last in range(pos + 1, sz0 + 1):
+                    out.append(hist("sv_int", cap, [f"asr 0 {L(base)}", f"err 0 {pos} {last}", "dat 0"]))
+    for cap in (4, 16):
+        for sz0 in range(0, cap + 1):
+            base = [100 + i for i in range(sz0)]
+            for pos in range(0, sz0 + 1):
+                for n in range(1, min(cap - sz0, 5) + 1):
+                    new = [200 + i for i in range(n)]
+                    for fl in ("sv_trk", "sv_mov"):
+                        if quick and rng.random() > 0.25:
+                            continue
+                        ins = f"irg 0 {pos} {L(new)}" if fl != "sv_mov" else f"mir 0 {pos} {L(new)}"
+                        out.append(hist(fl, cap, [f"mir 0 0 {L(base)}", ins, f"era 0 {pos}", "rit 0 0"]))
+    # ---- erase_if / erase over every keep/remove pattern of length <= 6 (7 in the thorough tier): remove_if's two cursors
+    for n in range(0, (7 if quick else 8)):
+        for pat in itertools.product([1, 18], repeat=n):
+            xs = [v + (i % 3) * 32 for i, v in enumerate(pat)]   # keys 0/1 (+2k), tags distinguish positions
+            out.append(hist("sv_int", 8, [f"asr 0 {L(xs)}", "eif 0 1", f"asr 1 {L(xs)}", "erv 1 18"]))
+            if n <= 4 or not quick:
+                fl = rng.choice(["sv_trk", "sv_str", "sv_mov"] if n <= 4 else ["sv_trk", "sv_mov"])
+                out.append(hist(fl, 4 if n <= 4 else 16, [f"mir 0 0 {L(xs)}", "eif 0 1", "rel"]))
     # ---- the size-type boundaries 65534 / 65535 / 65536: the objects exist and work (quick); filled to the boundary
     #      and back (thorough: one fill costs the extracted model ~10^10 list steps)
     for cap in BIG_CAPS:
